@@ -99,12 +99,85 @@ Proof.
   rewrite wdot_cons, dot_cons', IH by (auto; lia). ring.
 Qed.
 
+(* ---------- Rosenbrock ---------- *)
+Lemma dot_addhd (d G : Rvec) u : G <> [] -> dot d (addhd u G) = dot d G + nth 0 d 0 * u.
+Proof.
+  destruct G as [|h G]; [congruence|]. intros _. destruct d as [|a d]; cbn [addhd nth]; rewrite ?dot_nil_l; [ring|].
+  rewrite !dot_cons'. numR. ring.
+Qed.
+Lemma addhd_len u (l : Rvec) : length (addhd u l) = length l.
+Proof. destruct l; reflexivity. Qed.
+Lemma rgrad_cons2 c a b (r : Rvec) :
+  rgrad c (a :: b :: r) =
+  (- (of_Z 4 * c * (b - a * a) * a) + of_Z 2 * (a - none_))%num :: addhd (of_Z 2 * c * (b - a * a))%num (rgrad c (b :: r)).
+Proof. reflexivity. Qed.
+Lemma rgrad_len c (x : Rvec) : length (rgrad c x) = length x.
+Proof.
+  induction x as [|a [|b r] IH]; try reflexivity.
+  rewrite rgrad_cons2. cbn [length]. rewrite addhd_len, IH. reflexivity.
+Qed.
+
+Lemma rosen_sdiff c n : forall g x d, curve n g x d ->
+  derivable_pt_lim (fun t => rosen c (g t)) 0 (dot d (rgrad c x)).
+Proof.
+  induction n as [|n IH]; intros g x d Hc; pose proof Hc as (G0 & Gd & Gl & Gder).
+  - pose proof (curve_len_x _ _ _ _ Hc) as Hx. destruct x; [|discriminate Hx]. destruct d; [|discriminate Gd].
+    apply (dpl_ext (fun _ => 0)); [|apply derivable_pt_lim_const].
+    intros t. specialize (Gl t). destruct (g t); [reflexivity|discriminate Gl].
+  - destruct n as [|m].
+    + (* one entry: the functional is constant 0 *)
+      pose proof (curve_len_x _ _ _ _ Hc) as Hx.
+      destruct x as [|a [|? ?]]; try discriminate Hx. destruct d as [|u [|? ?]]; try discriminate Gd.
+      apply (dpl_ext (fun _ => 0)).
+      * intros t. specialize (Gl t). destruct (g t) as [|? [|? ?]]; try discriminate Gl. reflexivity.
+      * cbn [rgrad]. rewrite dot_cons', dot_nil_l. numR.
+        eapply dpl_eq; [|apply derivable_pt_lim_const]. ring.
+    + (* a :: b :: r *)
+      pose proof (curve_len_x _ _ _ _ Hc) as Hx.
+      destruct x as [|a [|b r]]; try discriminate Hx. destruct d as [|da [|db d']]; try discriminate Gd.
+      assert (Htl : curve (S m) (fun t => tl (g t)) (b :: r) (db :: d')).
+      { repeat split.
+        - rewrite G0; reflexivity.
+        - cbn in Gd |- *; lia.
+        - intros t. specialize (Gl t). destruct (g t); cbn in *; lia.
+        - intros i Hi. apply (dpl_ext (fun t => nth (S i) (g t) 0)).
+          + intros t. destruct (g t); [destruct i|]; reflexivity.
+          + apply (Gder (S i)). lia. }
+      pose proof (IH _ _ _ Htl) as Htail.
+      pose proof (Gder 0%nat ltac:(lia)) as Ha. pose proof (Gder 1%nat ltac:(lia)) as Hb.
+      cbn [nth] in Ha, Hb.
+      set (A := fun t => nth 0 (g t) 0) in *. set (B := fun t => nth 1 (g t) 0) in *.
+      apply (dpl_ext (fun t => c * ((B t - A t * A t) * (B t - A t * A t)) + (A t - 1) * (A t - 1)
+                              + rosen c (tl (g t)))).
+      { intros t. unfold A, B. specialize (Gl t). destruct (g t) as [|u [|v q]]; try discriminate Gl. reflexivity. }
+      assert (HA0 : A 0 = a) by (unfold A; rewrite G0; reflexivity).
+      assert (HB0 : B 0 = b) by (unfold B; rewrite G0; reflexivity).
+      rewrite rgrad_cons2. rewrite dot_cons'.
+      rewrite dot_addhd by (intros E; pose proof (rgrad_len c (b :: r)) as L; rewrite E in L; discriminate L).
+      cbn [nth]. numR.
+      apply (dpl_eq _ _ ((c * (((db - (da * A 0 + A 0 * da)) * (B 0 - A 0 * A 0))
+                               + ((B 0 - A 0 * A 0) * (db - (da * A 0 + A 0 * da))))
+                          + ((da - 0) * (A 0 - 1) + (A 0 - 1) * (da - 0)))
+                         + dot (db :: d') (rgrad c (b :: r)))).
+      { rewrite HA0, HB0. ring. }
+      apply derivable_pt_lim_plus; [|exact Htail].
+      assert (HT : derivable_pt_lim (fun t => B t - A t * A t) 0 (db - (da * A 0 + A 0 * da))).
+      { apply (derivable_pt_lim_minus B (fun t => A t * A t)); [exact Hb|].
+        apply (derivable_pt_lim_mult A A); exact Ha. }
+      assert (HS : derivable_pt_lim (fun t => A t - 1) 0 (da - 0)).
+      { apply (derivable_pt_lim_minus A (fun _ => 1)); [exact Ha|apply derivable_pt_lim_const]. }
+      apply derivable_pt_lim_plus.
+      * apply derivable_pt_lim_scal.
+        apply (derivable_pt_lim_mult (fun t => B t - A t * A t) (fun t => B t - A t * A t)); exact HT.
+      * apply (derivable_pt_lim_mult (fun t => A t - 1) (fun t => A t - 1)); exact HS.
+Qed.
+
 (* ---------- regular points ---------- *)
 Fixpoint fregular (w : Rvec) (f : fexprR) (x : Rvec) : Prop :=
   match f with
   | FL2 _ => 0 < wdot w x x
   | FL1 _ => forall i, (i < length x)%nat -> nth i x 0 <> 0
-  | FL2Sq _ | FConst _ _ => True
+  | FL2Sq _ | FConst _ _ | FRosen _ _ => True
   | FLScal f _ | FScalarSum f _ | FQP f _ _ _ => fregular w f x
   | FRScal f s => fregular w f (vscal s x)
   | FSum f g | FProd f g => fregular w f x /\ fregular w g x
@@ -116,8 +189,9 @@ Fixpoint fregular (w : Rvec) (f : fexprR) (x : Rvec) : Prop :=
 
 Lemma fgrad_len (f : fexprR) : forall w x, fwt f = true -> length x = fdim f -> length (fgrad sqrt w f x) = fdim f.
 Proof.
-  induction f as [n|n|n|n c|f IH s|f IH s|f IHf g IHg|f IH c|f IH t|f IH a u c|f IHf g IHg|f IHf g IHg|f IH v|f IH w' n rows];
+  induction f as [n c|n|n|n|n c|f IH s|f IH s|f IHf g IHg|f IH c|f IH t|f IH a u c|f IHf g IHg|f IHf g IHg|f IH v|f IH w' n rows];
     intros w x Hw Hx; cbn [fwt fdim fgrad] in *.
+  - rewrite rgrad_len; exact Hx.
   - rewrite vscal_len; exact Hx.
   - destruct (_ =? _)%num; [rewrite vconst_len|rewrite map_length]; exact Hx.
   - rewrite map_length; exact Hx.
@@ -146,8 +220,11 @@ Theorem fgrad_sound (f : fexprR) : forall w x,
   fwt f = true -> fok w f = true -> length w = fdim f -> length x = fdim f -> fregular w f x ->
   sdiff (fdim f) (feval sqrt w f) x (fun d => wdot w d (fgrad sqrt w f x)).
 Proof.
-  induction f as [n|n|n|n c|f IH s|f IH s|f IHf g IHg|f IH c|f IH t|f IH a u c|f IHf g IHg|f IHf g IHg|f IH v|f IH w' n rows];
+  induction f as [n c|n|n|n|n c|f IH s|f IH s|f IHf g IHg|f IH c|f IH t|f IH a u c|f IHf g IHg|f IHf g IHg|f IH v|f IH w' n rows];
     intros w x Hw Hok Hwl Hx Hreg; cbn [fwt fok fdim feval fgrad fregular] in *.
+  - (* Rosenbrock, unweighted space *)
+    intros g d Hc. pose proof Hc as (_ & Hd & _).
+    rewrite (all_one_wdot w d _ Hok) by lia. apply (rosen_sdiff c n); exact Hc.
   - (* L2NormSquared *)
     intros g d Hc.
     pose proof (dpl_dot2 _ _ _ _ _ _ _ (curve_mul_const _ _ _ _ w Hc Hwl) Hc) as H2.
@@ -303,5 +380,30 @@ Proof.
     - apply (dpl_eq _ _ ((0 + 1) * (1 + 0) + (1 + 0) * (0 + 1))); [ring|].
       apply (derivable_pt_lim_mult (fun t => 1 + t) (fun t => 1 + t));
         (apply derivable_pt_lim_plus; [apply derivable_pt_lim_const|apply derivable_pt_lim_id]). }
+  pose proof (uniqueness_limite _ _ _ _ H1 H2) as E. cbn in E. numR. lra.
+Qed.
+
+(* the same for RosenbrockFunctional on a weighted space (finding RosenbrockFunctional-weighted-space):
+   on rn(2, weighting=2) at x = (0, 0), d = (1, 0): f(x + t d) = c t^4 + (t - 1)^2 + ..., derivative -2,
+   the code answers <d, gradient>_w = 2 * (-2) = -4. *)
+Definition bad_r : fexprR := FRosen 2 1.
+Lemma rosen_weighted_refuted :
+  fwt bad_r = true /\ length [2; 2] = fdim bad_r /\ fregular [2; 2] bad_r [0; 0] /\
+  ~ sdiff (fdim bad_r) (feval sqrt [2; 2] bad_r) [0; 0] (fun d => wdot [2; 2] d (fgrad sqrt [2; 2] bad_r [0; 0])).
+Proof.
+  repeat split; try reflexivity.
+  intros H.
+  pose proof (H (line [0; 0] [1; 0]) [1; 0] (curve_line 2 [0; 0] [1; 0] eq_refl eq_refl)) as H1.
+  assert (H2 : derivable_pt_lim (fun t => feval sqrt [2; 2] bad_r (line [0; 0] [1; 0] t)) 0 (-2)).
+  { apply (dpl_ext (fun t => (t * t) * (t * t) + (t - 1) * (t - 1))).
+    - intros t. cbn. numR. ring.
+    - apply (dpl_eq _ _ (((1 * 0 + 0 * 1) * (0 * 0) + (0 * 0) * (1 * 0 + 0 * 1)) + ((1 - 0) * (0 - 1) + (0 - 1) * (1 - 0)))); [ring|].
+      assert (Hsq : derivable_pt_lim (fun t => t * t) 0 (1 * 0 + 0 * 1))
+        by (apply (derivable_pt_lim_mult (fun t => t) (fun t => t)); apply derivable_pt_lim_id).
+      assert (Hm1 : derivable_pt_lim (fun t => t - 1) 0 (1 - 0))
+        by (apply (derivable_pt_lim_minus (fun t => t) (fun _ => 1)); [apply derivable_pt_lim_id|apply derivable_pt_lim_const]).
+      apply derivable_pt_lim_plus.
+      + apply (derivable_pt_lim_mult (fun t => t * t) (fun t => t * t)); exact Hsq.
+      + apply (derivable_pt_lim_mult (fun t => t - 1) (fun t => t - 1)); exact Hm1. }
   pose proof (uniqueness_limite _ _ _ _ H1 H2) as E. cbn in E. numR. lra.
 Qed.
